@@ -93,6 +93,8 @@ def check(run: Run) -> None:
             elif isinstance(r, ast.Call) and isinstance(r.func, ast.Name) and r.func.id == "len" and isinstance(l, ast.Name) and op in (ast.GtE, ast.Gt, ast.Lt, ast.LtE):
                 slot_tests.append((n, l.id, r.args[0]))
                 strict[id(n)] = (op in (ast.GtE, ast.Lt), op in (ast.GtE, ast.Gt))
+    if not slot_tests:
+        raise AnalysisError("the filling loop of _fill_in_default_arguments has no test of the form len(<positional arguments>) <= <slot index> that this rule can read (the arguments may be kept in an object that is handed to other functions)")
     run.check(len(slot_tests) == 1, "C07.R1", fd, lp, "one 'is slot i already filled' test in the loop", f"{len(slot_tests)} slot tests found")
     if len(slot_tests) == 1:
         test, idx_name, arr = slot_tests[0]
